@@ -7,13 +7,79 @@ TRUST = ('Trusted base: the own z3 proxy executor (vf/engine), z3 5.1, the shims
          '(validated on every run by replaying each path witness against the real float code), exact real arithmetic '
          'in place of IEEE doubles, and the structural bound named in the evidence file.')
 
+SYMX = 'symbolic execution of the real code on z3-backed proxy values (own executor), exhaustive DFS path exploration within the stated bound, per-path SMT validity queries (z3; nonlinear real/integer arithmetic with uninterpreted floor/round/sqrt), counterexamples replayed on the real float code'
+
 CHECKS = {
+    'C01': dict(
+        text='Bounded symbolic model checking of the real SimulatedBroker/Portfolio/PortfolioEvent code: a symbolic reachable state is built through the public API '
+             '(<=2 portfolios, <=2 assets, symbolic transfers, fills and pending orders, symbolic clock) and ONE operation of every kind with symbolic arguments is executed; z3 proves the delta '
+             'specification of each operation (cash moves exactly by transfers and fill costs, transfers are zero-sum, nothing else changes, history events carry the true amounts rounded to cents, '
+             'account totals equal the per-portfolio sums). One step from every builder state + induction covers histories of any length within the structural bound.',
+        design='3/C01, 3.0, 8', technique=SYMX + '; inductive one-step delta specifications with a ghost ledger'),
+    'C02': dict(
+        text='Same harness: after the builder and after every update z3 proves reported quantity = signed sum of fills, reported iff non-zero, market value = quantity x most recent price '
+             '(fill or mark, whichever came last), total = sum, equity = cash + market value, for symbolic fills, quotes and instants.',
+        design='3/C02, 3.0, 8', technique=SYMX + '; ghost ledger of fills and marks'),
+    'C03': dict(
+        text='k-fill ladders (k<=3, thorough 4: every sign pattern of the fills and of the running net quantity) and one inductive step from an arbitrary valid Position on the real Position/Transaction '
+             'classes with integer quantities and real prices/commissions; z3 proves the P&L identities of the statement as rational identities on every path.',
+        design='3/C03, 8', technique=SYMX + '; ladder enumeration + inductive step on the ledger invariant'),
+    'C04': dict(
+        text='Real broker queue + real SimulatedExchange on a symbolic nanosecond clock: for every instant (boundaries 14:30:00.000000000 / 20:59:59.999999999 / 21:00, weekends are values of the clock) z3 proves '
+             'orders fill iff the exchange-hours predicate of the statement holds, exactly once, in full, sells before buys, same side in submission order; otherwise the queue is untouched; submit changes only the queue.',
+        design='3/C04, 3.0, 8', technique=SYMX + '; symbolic time as integer nanoseconds'),
+    'C05': dict(
+        text='On the same update steps z3 proves every fill is stamped with the update time, priced at that call\'s ask (buy) / bid (sell), charged (commission+tax rate) x |round(price x quantity)| '
+             '(0 under the zero model), never negative, and that the cash debit is price x quantity + commission; quotes are requested for the update time.',
+        design='3/C05, 3.0, 8', technique=SYMX + '; stub data handler with symbolic bid != ask'),
+    'C06': dict(
+        text='Lookup: the real get_bid/get_ask (+ real BacktestDataHandler) over a contract stub of the pandas index with symbolic row instants and query instant: z3 proves "value of the last row at or before t, NaN if none". '
+             'Frames: the real bar->bid/ask conversion through real pandas on symbolic prices for every row order, missing-cell pattern and adjustment mode. Handler: first non-NaN source, mid = (bid+ask)/2.',
+        design='3/C06, 8', technique=SYMX + '; pandas index contract stub validated against a real DatetimeIndex on every replayed path'),
+    'C07': dict(
+        text='Whole real BacktestTradingSession.run() on a symbolic market (1-2 assets, <=8 business days): all paths; per path and cut day T z3 decides that no output or decision up to T can be changed by rewriting later bars '
+             '(two-market obligation) and that outputs up to T are unchanged on frames truncated after T. Counterexamples are pairs of markets replayed through two real float backtests.',
+        design='3/C07, 8', technique=SYMX + '; 2-safety (two-market) obligations by substitution of future variables'),
+    'C08': dict(
+        text='Differential bounded model checking: the real session against an independent reference model of the documented rules (vf/props/reference.py) over the same symbolic market; '
+             'z3 proves fills (time, asset, quantity, price, commission, sells first), final cash/holdings and daily equity equal on every path; floor/round are shared uninterpreted functions.',
+        design='3/C08, 8', technique=SYMX + '; differential against a reference model'),
+    'C09': dict(
+        text='Real PCM + optimiser + universe + alpha model + sizers + execution handler + broker with explorer-chosen held/in-universe/weighted booleans per asset and symbolic holdings, weights, prices, cash: '
+             'orders are exactly target minus held over the union set (no zero, no duplicate, ascending), fills reach the target, unweighted holdings are liquidated, the allocation row covers exactly that set.',
+        design='3/C09, 8', technique=SYMX),
     'C10': dict(
-        text='Bounded symbolic model checking of the real DollarWeightedCashBufferedOrderSizer + fee models: every path for '
-             'N<=2 (thorough 3) assets with all numeric inputs symbolic; z3 proves the per-asset affordability bounds, the total '
-             'budget bound, integrality, rejection of every invalid input and acceptance of every valid one. A bounded '
-             'all-inputs verdict is the right level: the property is a universally quantified arithmetic bound over a loop-free kernel per asset.',
-        design='3/C10', technique='symbolic execution of the real sizer on z3 proxies; per-path SMT validity queries (z3 NRA + uninterpreted floor)'),
+        text='Every path of the real DollarWeightedCashBufferedOrderSizer + fee models for N<=2 (thorough 3) assets with all numeric inputs symbolic; z3 proves the per-asset affordability bounds, the total '
+             'budget bound, integrality, rejection of every invalid input and acceptance of every valid one.',
+        design='3/C10', technique=SYMX),
+    'C11': dict(
+        text='Every path of the real LongShortLeveragedOrderSizer + fee models for N<=2 (thorough 3) assets: integrality, sign agreement, truncation toward zero, largest affordable to within one currency unit, '
+             'gross exposure bound, rejection of non-positive leverage / NaN price.',
+        design='3/C11', technique=SYMX),
+    'C14': dict(
+        text='The real run() loop on a symbolic clock (<=3, thorough 4 events of any type, symbolic schedule and burn-in) against recording stubs, plus whole sessions: construction runs exactly at admitted scheduled '
+             'instants, one equity point per close at/after burn-in read after the broker update, fills only at opens after the first admitted rebalance, allocation table forward-filled.',
+        design='3/C14, 8', technique=SYMX + '; symbolic time'),
+    'C15': dict(
+        text='Every refusable request kind on symbolic reachable broker/portfolio states with arguments ranging over valid and invalid regions: a refusal is the documented exception type, happens exactly for invalid '
+             'requests and leaves every listed piece of state term-for-term unchanged. Two known findings (update is not transactional) are reported as KNOWN-FINDING.',
+        design='3/C15, 5, 8.4', technique=SYMX + '; before/after snapshots through the public getters'),
+    'C16': dict(
+        text='Real signal classes on symbolic price streams (2 assets, 2 lookbacks per object) through real pandas/numpy object kernels: momentum, SMA, volatility equal their trailing-window definitions at every step; '
+             'SignalsCollection.update with symbolic entry/update instants; once-per-close cadence on the real session loop; buffer-key injectivity by CrossHair (bounded) and cvc5 (unbounded).',
+        design='3/C16, 8', technique=SYMX + '; CrossHair 0.0.110 and cvc5 (QF_SLIA) for the string kernel'),
+    'C17': dict(
+        text='The real statistics pipeline (performance.py, tearsheet get_results, JSONStatistics) on an object-dtype equity column of z3 proxies, curve length <=4 (thorough 6) over week/month/year boundaries: returns, cumulative '
+             'returns, period aggregates, drawdowns, max drawdown, duration, CAGR, Sharpe, Sortino equal their definitions; tearsheet = JSON; scaled curves satisfy the same k-free definitions.',
+        design='3/C17, 8', technique=SYMX + '; exact log-domain algebra, uninterpreted sqrt/pow'),
+    'C18': dict(
+        text='Whole real sessions re-run on the same path with (i) the warm, previously used data-source object and arbitrary earlier queries, (ii) arbitrary iteration order of every set built in pcm.py/signal.py (all orders explored) '
+             'and order ids sorting the other way: z3 proves fills, equity, allocations (values and column order) are the same terms. A fresh interpreter with another hash seed is represented by the set orders (stated).',
+        design='3/C18, 8', technique=SYMX + '; nondeterministic set-iteration order chosen by solver-explored input booleans'),
+    'C19': dict(
+        text='Real universes, alpha model and optimisers on symbolic instants (entry = t is a value of the clock), and the real PCM + broker with a DynamicUniverse of symbolic entry instants: membership is inclusive, '
+             'non-members get no weight/order/position/column, members get the signal; optimisers return exactly the given keys.',
+        design='3/C19, 8', technique=SYMX + '; symbolic time'),
 }
 
 NOT_APPLICABLE = [
